@@ -142,7 +142,8 @@ def case_refs(case):
 
     res = {"case": case, "disagree": [], "oracle": [], "nontrivial": True}
     cp = RG.new_csvpaths(policy=["raise", "collect"], csvpath_policy=["raise", "collect"])
-    g = ['~ id: A ~ $[1*][#b == "x" @v = count_lines() @t.k = #a @t.j = #n]']
+    # (zero, flag, blank: final values that are falsy but present)
+    g = ['~ id: A ~ $[1*][@zero = subtract(#n, #n) @flag = no() @blank = "" #b == "x" @v = count_lines() @t.k = #a @t.j = #n]']
     if case["two_members"]:
         g.append('~ id: B ~ $[1*][@w = count() yes()]')
     cp.paths_manager.add_named_paths(name="g", paths=g)
@@ -160,7 +161,8 @@ def case_refs(case):
     A = last[0]
     hdr = case["hdr"]
     track = ".A" if case["two_members"] else ""
-    h = [f'$[1][@r = $g.variables.v @q = $g.variables.t.k @z = $g.variables.t.nokey @hv = $g.headers.{hdr}{track}]']
+    h = [f'$[1][@r = $g.variables.v @q = $g.variables.t.k @z = $g.variables.t.nokey @r0 = $g.variables.zero @rf = $g.variables.flag '
+         f'@rb = $g.variables.blank @hv = $g.headers.{hdr}{track}]']
     cp.paths_manager.add_named_paths(name="h", paths=h)
     src = os.path.join("data", "probe.csv")
     realenv.write_csv(src, case["probe"])
@@ -178,8 +180,9 @@ def case_refs(case):
     want_q = (A["variables"].get("t") or {}).get("k")
     idx = ["a", "b", "n", "c"].index(hdr)
     want_h = [l[idx].strip() for l in (A["lines"] or []) if len(l) > idx]
-    got = {"r": hv.get("r"), "q": hv.get("q"), "z": hv.get("z"), "hv": hv.get("hv")}
-    want = {"r": want_v, "q": want_q, "z": None, "hv": want_h}
+    got = {"r": hv.get("r"), "q": hv.get("q"), "z": hv.get("z"), "hv": hv.get("hv"), "r0": hv.get("r0"), "rf": hv.get("rf"), "rb": hv.get("rb")}
+    want = {"r": want_v, "q": want_q, "z": None, "hv": want_h, "r0": A["variables"].get("zero"), "rf": A["variables"].get("flag"),
+            "rb": A["variables"].get("blank")}
     for key in want:
         if got[key] != want[key] and not (key == "hv" and list(got[key] or []) == want[key]):
             res["oracle"].append({"what": f"reference ${'g'}: {key} does not evaluate to the value the most recent run left",
